@@ -293,6 +293,10 @@ func Run(c *core.Ctx, replay string) (*core.Result, error) {
 			for _, m := range sqlprog.Compose(u, rng, 2+rng.Intn(4), 1000+len(items)) {
 				items = append(items, Item{ID: len(items) + 1, Label: "sql model file", Files: sqlprog.Render(m), Source: sqlprog.Dir(m.ID) + "/models.go", Pkg: synth.ModRoot + "/" + sqlprog.Dir(m.ID)})
 			}
+			// model files with comment directives (UNIQUE sets, select keys, custom queries) and nullable keys
+			for _, m := range sqlprog.ComposeCrud(u, rng, 5000+len(items)) {
+				items = append(items, Item{ID: len(items) + 1, Label: "sql model file (directives)", Files: sqlprog.Render(m), Source: sqlprog.Dir(m.ID) + "/models.go", Pkg: synth.ModRoot + "/" + sqlprog.Dir(m.ID)})
+			}
 			// the same without the column kinds sqlcrud documents as refused, so that every supported kind
 			// reaches the CRUD generator in an accepted file
 			for _, m := range sqlprog.Compose(u.Filter(sqlprog.CrudOK), rng, 2+rng.Intn(4), 3000+len(items)) {
